@@ -8,7 +8,7 @@ namespace EPV.Scope
 variable {lex : Bool}
 
 theorem eval_sem_related (c : Cfg) (hq1 : c.q.callCopies = true) (hq2 : c.q.operandCopied = true)
-    (hlex : c.q.calleeLexical = lex) (h : Heap) :
+    (hq4 : c.q.adjustCopied = true) (hlex : c.q.calleeLexical = lex) (h : Heap) :
     ∀ n, Related lex (eval c n) (sem c.tz h n) h := by
   intro n
   induction n with
@@ -164,6 +164,48 @@ theorem eval_sem_related (c : Cfg) (hq1 : c.q.callCopies = true) (hq2 : c.q.oper
               · simp only [h3, h4]
                 exact applyFn_rel ih hq1 hlex (.fn ps b c1 c2 S' ex hex hws hdom hrel hout) hvs
             | _ => exact RRel.err .type
+    | durLit s => exact RRel.ok (.cons (.dur s) .nil)
+    | adjust1 e =>
+      simp only [eval, sem]
+      rcases (ih e exact S ρ1 ρ2 (by simpa [WS] using hw) hi).cases with ⟨e, h1, h2⟩ | ⟨v1, v2, h1, h2, hv⟩
+      · simp only [h1, h2]; exact RRel.err e
+      · simp only [h1, h2]
+        cases hv with
+        | nil => exact RRel.ok .nil
+        | cons hx t =>
+          cases t with
+          | cons _ _ => exact RRel.err .type
+          | nil =>
+            simp only [adjustItem_fixed hq4, deref_rel hx]
+            cases deref h _ with
+            | none => exact RRel.err .type
+            | some d => exact RRel.ok (.cons (.dtv _ _) .nil)
+    | adjust2 e z =>
+      simp only [WS, Bool.and_eq_true] at hw
+      simp only [eval, sem]
+      rcases (ih e exact S ρ1 ρ2 hw.1 hi).cases with ⟨e, h1, h2⟩ | ⟨v1, v2, h1, h2, hv⟩
+      · simp only [h1, h2]; exact RRel.err e
+      · simp only [h1, h2, hv.length_eq]
+        by_cases hlen : v2.length > 1
+        · simp only [if_pos hlen]; exact RRel.err .type
+        · simp only [if_neg hlen]
+          rcases (ih z exact S ρ1 ρ2 hw.2 hi).cases with ⟨e, h3, h4⟩ | ⟨w1, w2, h3, h4, hw2⟩
+          · simp only [h3, h4]; exact RRel.err e
+          · simp only [h3, h4, targetOf_rel hw2]
+            cases targetOf w2 with
+            | error e => exact RRel.err e
+            | ok target =>
+              simp only
+              cases hv with
+              | nil => exact RRel.ok .nil
+              | cons hx t =>
+                cases t with
+                | cons _ _ => simp at hlen
+                | nil =>
+                  simp only [adjustItem_fixed hq4, deref_rel hx]
+                  cases deref h _ with
+                  | none => exact RRel.err .type
+                  | some d => exact RRel.ok (.cons (.dtv _ _) .nil)
 
 /-! ### the top level: caller's dict on both sides -/
 
@@ -235,9 +277,9 @@ theorem ws_of_noFn (lex : Bool) : ∀ (e : Expr) (S : List Name), noFn e = true 
   intro e
   induction e with
   | fn ps b _ => intro S h; simp [noFn] at h
-  | int _ | var _ | empty | dt _ _ => intro S _; simp [WS]
-  | paren e ih | tzOf e ih | call0 e ih => intro S h; simp only [noFn] at h; simpa [WS] using ih S h
-  | seq a b iha ihb | add a b iha ihb | sub a b iha ihb | eq a b iha ihb | call a b iha ihb =>
+  | int _ | var _ | empty | dt _ _ | durLit _ => intro S _; simp [WS]
+  | paren e ih | tzOf e ih | call0 e ih | adjust1 e ih => intro S h; simp only [noFn] at h; simpa [WS] using ih S h
+  | seq a b iha ihb | add a b iha ihb | sub a b iha ihb | eq a b iha ihb | call a b iha ihb | adjust2 a b iha ihb =>
     intro S h
     simp only [noFn, Bool.and_eq_true] at h
     simp only [WS, Bool.and_eq_true]; exact ⟨iha S h.1, ihb S h.2⟩
@@ -251,10 +293,10 @@ at all, because a function body runs in exactly the dict the specification gives
 theorem ws_lexical : ∀ (e : Expr) (S : List Name), WS true true S e = true := by
   intro e
   induction e with
-  | int _ | var _ | empty | dt _ _ => intro S; simp [WS]
+  | int _ | var _ | empty | dt _ _ | durLit _ => intro S; simp [WS]
   | fn ps b ih => intro S; simp only [WS, Bool.and_self]; exact ih _
-  | paren e ih | tzOf e ih | call0 e ih => intro S; simpa [WS] using ih S
-  | seq a b iha ihb | add a b iha ihb | sub a b iha ihb | eq a b iha ihb | call a b iha ihb =>
+  | paren e ih | tzOf e ih | call0 e ih | adjust1 e ih => intro S; simpa [WS] using ih S
+  | seq a b iha ihb | add a b iha ihb | sub a b iha ihb | eq a b iha ihb | call a b iha ihb | adjust2 a b iha ihb =>
     intro S; simp only [WS, Bool.and_eq_true]; exact ⟨iha S, ihb S⟩
   | letE x a b iha ihb | forE x a b iha ihb | someE x a b iha ihb | everyE x a b iha ihb =>
     intro S; simp only [WS, Bool.and_eq_true]; exact ⟨iha S, ihb (x :: S)⟩
